@@ -47,7 +47,24 @@ impl<const P: u128> ops::Mul<FiniteField<P>> for FiniteField<P> {
     type Output = FiniteField<P>;
 
     fn mul(self, rhs: FiniteField<P>) -> Self::Output {
-        FiniteField::new((self.v * rhs.v) % P)
+        match self.v.checked_mul(rhs.v) {
+            Some(prod) => FiniteField::new(prod % P),
+            None => {
+                // the product does not fit in 128 bits (only possible when P > 2^64):
+                // double-and-add, every intermediate value stays below 2 * P
+                let mut acc: u128 = 0;
+                let mut a = self.v;
+                let mut b = rhs.v;
+                while b > 0 {
+                    if b & 1 == 1 {
+                        acc = (acc + a) % P;
+                    }
+                    a = (a + a) % P;
+                    b >>= 1;
+                }
+                FiniteField::new(acc)
+            }
+        }
     }
 }
 
